@@ -330,7 +330,7 @@ def unhex(s):
     return b"" if s == "-" else bytes.fromhex(s)
 
 
-def run_lines(exe, lines, env=None, timeout=3600, shards=None):
+def run_lines(exe, lines, env=None, timeout=300, shards=None):
     """Feed protocol lines to a line-protocol program; returns list of answer lines.
     Work is split into shards run in parallel; a shard that dies yields 'DIED <rc> <stderr tail>'
     answers for the line it died on and is restarted after it."""
